@@ -594,11 +594,23 @@ pub(super) async fn apply_prices_from_vote_extensions<S: StateWriteExt>(
         id_to_currency_pair,
     } = extended_commit_info;
 
-    let prices = astria_core::oracles::price_feed::utils::calculate_prices_from_vote_extensions(
+    // The extended commit info has already been accepted by a quorum in `process_proposal`, where
+    // only the encoded length of each price is bounded. A price that does not decode must therefore
+    // not fail the (already decided) block: skip the price update for this block instead, as the
+    // conductor does when it derives the price feed data from the same extended commit info.
+    let prices = match astria_core::oracles::price_feed::utils::calculate_prices_from_vote_extensions(
         extended_commit_info,
         id_to_currency_pair,
-    )
-    .wrap_err("failed to calculate prices from vote extensions")?;
+    ) {
+        Ok(prices) => prices,
+        Err(error) => {
+            warn!(
+                %error,
+                "failed to calculate prices from vote extensions; not updating prices in this block"
+            );
+            return Ok(());
+        }
+    };
     for price in prices {
         let quote_price = QuotePrice {
             price: price.price(),
